@@ -98,6 +98,7 @@ def cases(tier, seed):
             for r in range(CHUNKS):
                 out.append(dict(N=N, k=k, th=th, kind=kind, loc="h5all", stage="main", idx=-1, chunk=r, output="out.h5", pre=[]))
     if not quick:
+        # informational only (outside the statement): faults in the set-up writes that precede step 0
         for N, k in [(2, 1), (3, 2)]:
             for kind in ("exc", "kbd_off"):
                 for r in range(CHUNKS):
@@ -282,6 +283,14 @@ def _check(case, loc, idx, obs, res):
     def V(kindname, **kw):
         detail = kw.pop("detail", {})
         detail = dict(detail, case=case, fault_index=idx)
+        if loc == "h5setup":
+            # a stop during the set-up writes (before step 0) is outside the statement, which quantifies over stops injected into
+            # the update or the frame writer at steps 0..N: what happens there is recorded as an observation, not as a violation
+            res.count("setup_fault_observations")
+            note = f"set-up fault (HDF5 write #{idx}, before step 0): {kindname}"
+            if note not in res.info:
+                res.info.append(note)
+            return
         res.violate(kindname, **dict(sig, **kw), detail=detail)
 
     # ---- handles -------------------------------------------------------------------------
